@@ -19,6 +19,9 @@ type Log struct {
 	Addr   []byte // 20 bytes
 	Topics [][]byte
 	Data   []byte
+	// Meta is harness-side information about how the log was made (e.g. the
+	// values it encodes); it is never rendered.
+	Meta any
 }
 
 type Trace struct {
